@@ -3,7 +3,7 @@ CONSTANTS
   Addr = {0, 1}
   Byte = {0, 1}
   Ids = {i1, i2}
-  MaxLen = 2
+  MaxLen = 1
   MaxOut = 2
   Requester = "R"
   Ports = {"R", "X"}
